@@ -1,7 +1,11 @@
 //! Context harness (kind R, second binary): a JSON-line server that creates real `I18nContext`s natively
 //! (`ssr` build, injected cookie / Accept-Language getters) and drives them with operation sequences.
 //!
-//! ops: `locales`, `parse_tags` (ICU oracle), `resolve` (C15), `ops` (C16).
+//! ops: `locales`, `parse_tags` (ICU oracle), `resolve` (C15), `ops` (C16), `effects_selftest` (C16).
+//!
+//! Two builds: plain (`ssr` only: `Effect::new` / `RenderEffect::new` are inert, only `Effect::new_isomorphic` runs) and
+//! `--features effects` (reactive_graph's `effects`: effects run natively on the deterministic executor of `exec.rs`, as
+//! they do in the browser with `csr` / `hydrate`), each in its own target dir.
 #![allow(dead_code, unused_imports, non_camel_case_types, non_snake_case)]
 use leptos::prelude::*;
 use leptos_i18n::context::{
@@ -393,6 +397,11 @@ fn text_locale(s: &str) -> String {
 /// C16: a sequence of operations over a tree of contexts; one observation per step.
 fn ops(req: &Value) -> Value {
     let steps = req["steps"].as_array().expect("steps");
+    let drain_each = match req.get("drain_each") {
+        None => true,
+        Some(Value::Bool(b)) => *b,
+        Some(o) => panic!("field drain_each: expected bool, got {o}"),
+    };
     let root_owner = Owner::new();
     let mut views: Vec<View> = Vec::new();
     let mut closures: Vec<Box<dyn Fn() -> String>> = Vec::new();
@@ -614,10 +623,16 @@ fn ops(req: &Value) -> Value {
                 let text = root_owner.with(|| (closures[i])());
                 json!({"text": text})
             }
+            // one turn of the event loop: run the executor until idle (spawned effect futures are polled: first runs of
+            // `Effect::new`, re-runs of effects / render effects whose sources were notified, isomorphic effects).
+            // Without the `effects` feature only the isomorphic effects run.  Never observable (the model's `tick`).
+            "tick" => json!({"tick": true, "polled": exec::drain()}),
             other => panic!("unknown step op {other}"),
         };
         obs.push(o);
-        if req.get("drain_each").and_then(|b| b.as_bool()).unwrap_or(true) {
+        // `drain_each` (default, and what every sequence without `tick` steps means): a tick after every step;
+        // with `drain_each: false` the executor runs at `tick` steps only (and once before the final read-back)
+        if drain_each {
             exec::drain();
         }
     }
@@ -632,7 +647,40 @@ fn ops(req: &Value) -> Value {
     drop(owners);
     drop(root_owner);
     exec::drain();
-    json!({"obs": obs, "final": fin})
+    json!({"obs": obs, "final": fin, "effects": cfg!(feature = "effects")})
+}
+
+/// Do `Effect`s / `RenderEffect`s run in this build?  A signal, an `Effect`, a `RenderEffect` and an isomorphic effect
+/// each logging the values they see; the log lengths are reported before / after a tick and before / after a tick
+/// that follows a `set`.  Expected with `--features effects`: effect `[] [0] [0] [0,7]`, render effect
+/// `[0] [0] [0] [0,7]`; without: both stay empty; the isomorphic effect `[] [0] [0] [0,7]` in both builds.
+fn effects_selftest() -> Value {
+    let owner = Owner::new();
+    let out = owner.with(|| {
+        let sig = RwSignal::new(0u32);
+        let mk = || -> Arc<Mutex<Vec<u32>>> { Default::default() };
+        let (e, r, i) = (mk(), mk(), mk());
+        let (e2, r2, i2) = (e.clone(), r.clone(), i.clone());
+        Effect::new(move |_| e2.lock().unwrap().push(sig.get()));
+        let re = RenderEffect::new(move |_| r2.lock().unwrap().push(sig.get()));
+        Effect::new_isomorphic(move |_| i2.lock().unwrap().push(sig.get()));
+        let snap = |l: &Arc<Mutex<Vec<u32>>>| l.lock().unwrap().clone();
+        let mut phases: Vec<Value> = Vec::new();
+        let mut push = |name: &str| phases.push(json!({"at": name, "effect": snap(&e), "render_effect": snap(&r), "isomorphic": snap(&i)}));
+        push("created");
+        let polled1 = exec::drain();
+        push("tick");
+        sig.set(7);
+        push("set");
+        let polled2 = exec::drain();
+        push("set_tick");
+        drop(re);
+        json!({"feature_effects": cfg!(feature = "effects"), "phases": phases, "polled": [polled1, polled2]})
+    });
+    exec::drain();
+    drop(owner);
+    exec::drain();
+    out
 }
 
 /// C05 (run-time side): the six `t*_plural*!` macros on a count, next to the CLDR category ICU4X gives for the locale
@@ -751,6 +799,7 @@ fn handle(req: &Value) -> Value {
         "plural_macros" => plural_macros(req),
         "format_views" => format_views(req),
         "ops" => ops(req),
+        "effects_selftest" => effects_selftest(),
         _ => json!({"bad_op": format!("unknown op {op}")}),
     }
 }
